@@ -6,7 +6,9 @@
 
 //! This module parses eBPF assembly language source code.
 
+use combine::error::StreamError;
 use combine::parser::char::{alpha_num, char, digit, hex_digit, spaces, string};
+use combine::stream::StreamErrorFor;
 use combine::stream::position::{self};
 #[cfg(feature = "std")]
 use combine::EasyParser;
@@ -55,11 +57,25 @@ where
         Some('-') => -1,
         _ => 1,
     });
-    let hex = string("0x")
-        .with(many1(hex_digit()))
-        .map(|x: String| u64::from_str_radix(&x, 16).unwrap() as i64);
-    let dec = many1(digit()).map(|x: String| x.parse::<i64>().unwrap());
-    (sign, attempt(hex).or(dec)).map(|(s, x)| s * x)
+    let out_of_range = || StreamErrorFor::<I>::message_static_message("integer out of range");
+    // Hexadecimal literals give the bit pattern of a 64-bit value.
+    let hex = string("0x").with(many1(hex_digit())).and_then(move |x: String| {
+        u64::from_str_radix(&x, 16)
+            .map(|v| (true, v as i64 as i128))
+            .map_err(|_| out_of_range())
+    });
+    let dec = many1(digit()).and_then(move |x: String| {
+        x.parse::<i128>()
+            .map(|v| (false, v))
+            .map_err(|_| out_of_range())
+    });
+    (sign, attempt(hex).or(dec)).and_then(move |(s, (is_hex, x)): (i64, (bool, i128))| {
+        if is_hex {
+            Ok(s.wrapping_mul(x as i64))
+        } else {
+            i64::try_from(s as i128 * x).map_err(|_| out_of_range())
+        }
+    })
 }
 
 fn register<I>() -> impl Parser<I, Output = i64>
@@ -67,9 +83,10 @@ where
     I: Stream<Token = char>,
     I::Error: ParseError<I::Token, I::Range, I::Position>,
 {
-    char('r')
-        .with(many1(digit()))
-        .map(|x: String| x.parse::<i64>().unwrap())
+    char('r').with(many1(digit())).and_then(|x: String| {
+        x.parse::<i64>()
+            .map_err(|_| StreamErrorFor::<I>::message_static_message("register number out of range"))
+    })
 }
 
 fn operand<I>() -> impl Parser<I, Output = Operand>
